@@ -935,8 +935,9 @@ End Parser.
 (* Every run either moves the pointer forward, or changes the state; the pointer moves backwards only in
    the scheme state ("start over", once), in the authority state (back to the start of the host, once, since
    the state is left), and by one in the states that hand the same code point to another state; the graph of
-   states has no cycle. So 3 * (length input + 1) + 21 runs are enough; the fuel is much larger. *)
-Definition parser_fuel (input : list N) : nat := 8 * (length input + 8).
+   states has no cycle. So 3 * (length input + 1) + 21 runs are enough; the fuel is much larger: it is the bound
+   for which Proofs/RefineMachine.v (R8_spec_terminates) proves that the run never ends for lack of fuel. *)
+Definition parser_fuel (input : list N) : nat := 24 * (length input + 3).
 
 (* steps 1.2-1.3: "Remove any leading and trailing C0 control or space from input." *)
 Fixpoint strip_leading_c0_space (s : list N) : list N :=
